@@ -94,6 +94,8 @@ def gen(r, fp: Dict[str, Any]) -> Dict[str, Any]:
           "handlers": handlers, "jobs": jobs, "idle": r.choice([0, 0, 1, 3]) if rt else 0,
           "exit": fp["exit"], "exit_at": at, "stop_on_handler_exceptions": fp["exit"] == "handler_error",
           "custom_log_factory": r.random() < 0.4}
+    # an idle handler may raise too: that is neither a producer's error nor the caller's cancellation
+    sc["idle_fail"] = [n for n in range(8) if r.random() < 0.25] if sc["idle"] else []
     if fp["exit"] == "handler_error":
         # no accidental failures before the designated one when stop-on-error is armed
         for hs in handlers:
@@ -116,6 +118,7 @@ class Run:
         self.inflight: Dict[Any, int] = collections.defaultdict(int)
         self.max_inflight = 0
         self.idle_while_busy = 0
+        self.idle_failures = 0
         self.raised_by_producer: Dict[int, BaseException] = {}
         self.stop_requested_at: Optional[float] = None
         self.cancel_requested_at: Optional[float] = None
@@ -283,11 +286,18 @@ class Run:
     def _mk_idle(self, k):
         run = self
 
+        calls = [0]
+
         async def idle():
             if any(v > 0 for v in run.inflight.values()):
                 run.idle_while_busy += 1
             run.htrace.append((run.vt(), "idle", k, "start"))
+            n = calls[0]
+            calls[0] += 1
             await asyncio.sleep(0.02)
+            if n in run.sc.get("idle_fail", []):
+                run.idle_failures += 1
+                raise Err(f"idle handler {k} call {n}")
         return idle
 
     def _mk_handler(self, pid, hi, spec, designated):
@@ -523,6 +533,7 @@ def evaluate(sc: Dict[str, Any], res: ShardResult) -> Run:
     res.count("cancelled_handlers", sum(1 for r_ in run.htrace if r_[3] == "cancelled"))
     res.count("exit_" + sc["exit"])
     res.count("double_fault_runs", 1 if run.double_fault else 0)
+    res.count("idle_handler_failures", run.idle_failures)
     res.count("watchdog_ended_runs", 1 if run.watchdog_fired else 0)
     if run.max_inflight >= sc["max_concurrent"]:
         res.count("pool_saturated_runs")
